@@ -1179,7 +1179,7 @@ func (m *Model) isWaitHelperResult(l Lit) bool {
 			nOther++
 		}
 	})
-	return nSel == 1 && nOther == 0 && m.P.isPlumbingHelper(m, g)
+	return nSel == 1 && nOther == 0 && m.P.isPlumbingHelper(m, g, false)
 }
 
 // unitGuardsSubst is unitGuards with the parameters of the single-call-site functions replaced
